@@ -78,6 +78,7 @@ Fixpoint evalS (n : nat) (ft : ftab) (en : env) (o : list value) (e : sexp) : re
       | SGlob x => (glob_value en x, o)
       | SList _ (SSym f :: args) =>
           match builtin_of f with
+          | Some BProgn => eval_seqS (evalS n' ft) en o args VNil     (* the forms in order; the value(s) of the last *)
           | Some BIf => eval_ifS (evalS n' ft) en o args
           | Some BCase => eval_caseS (evalS n' ft) en o args
           | Some b =>
